@@ -269,6 +269,83 @@ def backtrack_pairing(rep, F, tag, rid):
     R.guard(body)
 
 
+def backtrack_validated(rep, F, tag, rid):
+    """backtrack_search may hand back only a step it has itself tested: every return is either zero (the floor was passed) or the
+    trial alpha whose point q + alpha*dq has just been found inside the cone; a loop exit that returns an untested trial
+    (a bounded trial budget running out) leaves the cone."""
+    R = rep.rule(rid, 'backtrack_search returns zero or the alpha whose trial point was just tested to be in the cone (no untested exit)')
+
+    def body():
+        f = F.one(name='backtrack_search')
+        n = 0
+        for val, ret, ev, tr in Walker(f, cut_loops=True).leaves():
+            if ret[0] != 's':
+                continue
+            n += 1
+            r = str(ret[1])
+            if r == 'zero()':
+                fl = [k for k, v in val.items() if k.startswith('lt(') and k.endswith(', arg4)') and v == 1] + [k for k, v in val.items() if k.startswith('le(arg4, ') and v == 0]
+                R.check(bool(fl), 'zero-only-below-floor' + tag, 'backtrack_search returns zero on a path where alpha < alpha_min was not found (%s)' % val, f.loc())
+                continue
+            tests = [i for i, e in enumerate(ev) if e[0] == 'call' and e[1] == 'call' and str(e[2]).startswith('call(arg6, ')]
+            if not tests:
+                R.bad('untested-return' + tag, 'backtrack_search returns %s on a path that never evaluates the membership test: the step is not known to stay in the cone' % r, f.loc())
+                continue
+            i = tests[-1]
+            ok = val.get(str(ev[i][2])) == 1
+            later = [e for e in ev[i + 1:] if (e[0] == 'call' and e[1] in ('mul_assign', 'waxpby')) or (e[0] == 'assign' and e[1] == 'α')]
+            R.check(ok and not later, 'untested-return' + tag,
+                    'backtrack_search returns %s after the membership test gave %s and then %s: the returned step is not the one tested' % (r, val.get(str(ev[i][2])), [e[1] for e in later]), f.loc())
+            w = [e for e in ev[:i] if e[0] == 'call' and e[1] == 'waxpby']
+            R.check(bool(w) and split_args(str(w[-1][2])) [0:3] == ['arg7', 'one()', 'arg2'] and split_args(str(w[-1][2]))[4] == 'arg1' and str(ev[i][2]) == 'call(arg6, tuple(arg7))', 'trial-point' + tag,
+                    'the tested point is %s via %s, expected work = q + alpha*dq' % (ev[i][2], w[-1][2] if w else None), f.loc())
+            if w:
+                a = split_args(str(w[-1][2]))[3]
+                R.check(a in (r, 'var:α') or r in ('var:α',), 'tested-alpha-returned' + tag, 'the trial uses alpha = %s but %s is returned' % (a, r), f.loc())
+        R.check(n >= 2, 'returns' + tag, 'only %d returning paths of backtrack_search analysed' % n)
+
+    R.guard(body)
+
+
+def nn_ratio_test(rep, F, tag, rid):
+    """The nonnegative cone's step length is the exact ratio test: component i limits the step iff its direction is negative - compared
+    with zero, not with a tolerance (the test is scale invariant: z_i = 1e-17, dz_i = -1e-16 limits the step to 0.1) - and then by
+    -z_i/dz_i; `<=` would divide by zero."""
+    R = rep.rule(rid, 'nonnegative cone: component i limits the step iff dz_i < 0 (exactly zero as threshold), by -z_i/dz_i; same for s')
+
+    def body():
+        f = F.one(name='step_length', adt='NonnegativeCone', trait='Cone')
+        n = 0
+        for val, ret, ev, tr in Walker(f, cut_loops=True, local_stores=True).leaves():
+            if ret[0] != 'cut':
+                continue
+            it = [k for k in val if k.startswith('discr(next(into_iter(Range::Range(0_usize, len(')]
+            if not it or val[it[0]] != 1:
+                continue
+            I = it[0][len('discr('):-1] + '@Some.0'
+            n += 1
+            for d, q, a in (('arg2', 'arg4', 'αz'), ('arg3', 'arg5', 'αs')):
+                tests = {k: v for k, v in val.items() if ('%s[%s]' % (d, I)) in k and k[:3] in ('lt(', 'le(')}
+                want_k = 'lt(%s[%s], zero())' % (d, I)
+                R.check(list(tests) == [want_k], 'guard|%s%s' % (a, tag),
+                        'the ratio test of %s is guarded by %s, expected exactly %s[i] < 0: a tolerance skips tiny components of a badly scaled iterate (the step '
+                        'then leaves the cone), <= divides by zero' % (a, sorted(k.replace(I, 'i') for k in tests), 'dz' if d == 'arg2' else 'ds'), f.loc())
+                ups = [canon(f.sym_rvalue(e[4]['rv'])) for e in ev if e[0] == 'assign' and e[1] == a and isinstance(e[4], dict)]
+                ups = [u for u in ups if u not in ('arg7',)]
+                neg = tests.get(want_k)
+                ratio = 'div(neg(%s[%s]), %s[%s])' % (q, I, d, I)
+                if neg == 1:
+                    R.check(ups in (['min(var:%s, %s)' % (a, ratio)], ['min(%s, var:%s)' % (ratio, a)]), 'ratio|%s%s' % (a, tag),
+                            'with a negative direction %s is updated by %s, expected min(%s, -%s_i/d%s_i)' % (a, [u.replace(I, 'i') for u in ups], a, 'z' if q == 'arg4' else 's', 'z' if q == 'arg4' else 's'), f.loc())
+                elif neg == 0:
+                    R.check(not ups, 'no-limit|%s%s' % (a, tag), '%s is updated (%s) although the direction is not negative' % (a, [u.replace(I, 'i') for u in ups]), f.loc())
+        R.check(n >= 4, 'paths' + tag, 'only %d iteration paths of NonnegativeCone::step_length analysed' % n, f.loc())
+        r0 = [str(ret[1]) for val, ret, ev, tr in Walker(f, cut_loops=True).leaves() if ret[0] == 's']
+        R.check(r0 == ['tuple(var:αz, var:αs)'], 'returns' + tag, 'NonnegativeCone::step_length returns %s' % r0, f.loc())
+
+    R.guard(body)
+
+
 def interior_shift(rep, F, tag, rid):
     """Initial shift into the cone interior.  In floating point z + (target - m) with a hugely negative margin m
     rounds (target - m) to -m and leaves the worst component exactly on the boundary; (z + target) - m loses the
